@@ -18,9 +18,10 @@ from . import c02_tree as T
 from . import c08_hist as H
 from . import c08_ns as NS
 from . import c08_upd as U
+from . import c08_ini as INI
 
 PROPERTY = 'C08'
-LEAN_TARGETS = ['CpProofs.C08', 'CpProofs.C08Hist', 'CpProofs.C08Ns', 'CpProofs.C08Upd', 'CpProofs.C08Eval', 'drv_c08']
+LEAN_TARGETS = ['CpProofs.C08', 'CpProofs.C08Hist', 'CpProofs.C08Ns', 'CpProofs.C08Upd', 'CpProofs.C08Eval', 'CpProofs.C08Ini', 'drv_c08']
 DRIVER = 'drv_c08'
 THEOREMS = [
     'CpProofs.C08.get_append',
@@ -87,6 +88,12 @@ THEOREMS = [
     'CpProofs.C08.C08_mult_int',
     'CpProofs.C08.C08_mult_seq',
     'CpProofs.C08.C08_name_lookup_order',
+    'CpProofs.C08.C08_ini_plain',
+    'CpProofs.C08.C08_ini_section_over_default',
+    'CpProofs.C08.C08_ini_options',
+    'CpProofs.C08.C08_ini_case_kept',
+    'CpProofs.C08.C08_ini_case_sensitive',
+    'CpProofs.C08.C08_ini_stock_lowercases',
 ]
 LEVEL = 'proof'
 TECHNIQUE = ('Lean 4 proof: set_conf over the object trail refined to a level-by-level declarative merge (induction over the '
@@ -1555,6 +1562,9 @@ def check_any(ctx, cases, compare_model=True):
     upd = [c for c in cases if 'upd' in c]
     if upd:
         U.check_upd_cases(ctx, upd, compare_model)
+    ini = [c for c in cases if 'ini' in c and 'tree' not in c]
+    if ini:
+        INI.check_ini_cases(ctx, ini, compare_model)
     if conf:
         check_config_cases(ctx, conf, compare_model)
     if fc:
@@ -1584,6 +1594,7 @@ def _worker(args):
     NS.check_ns_cases(sub, [NS.gen_ns_case(sub.rng) for _ in range(n * 2)])
     NS.check_eff_cases(sub, [NS.gen_eff_case(sub.rng) for _ in range(n)])
     U.check_upd_cases(sub, [U.gen_upd_case(sub.rng) for _ in range(n // 2)])
+    INI.check_ini_cases(sub, [INI.gen_ini_case(sub.rng) for _ in range(n)])
     check_fc_cases(sub, [gen_fc_case(sub.rng) for _ in range(n * 4)])
     check_literal_cases(sub, gen_literal_cases(sub.rng, n * 4))
     return _export(sub)
@@ -1642,6 +1653,7 @@ def run(ctx):
         NS.check_ns_cases(ctx, [NS.gen_ns_case(ctx.rng) for _ in range(2000)])
         NS.check_eff_cases(ctx, [NS.gen_eff_case(ctx.rng) for _ in range(1200)])
         U.check_upd_cases(ctx, [U.gen_upd_case(ctx.rng) for _ in range(600)])
+        INI.check_ini_cases(ctx, [INI.gen_ini_case(ctx.rng) for _ in range(1200)])
         check_fc_cases(ctx, [gen_fc_case(ctx.rng) for _ in range(3000)])
         check_literal_cases(ctx, gen_literal_cases(ctx.rng, 2500))
         return
@@ -1670,6 +1682,7 @@ def search(ctx, around=None):
     NS.check_ns_cases(ctx, [NS.gen_ns_case(ctx.rng) for _ in range(3000)], compare_model=False)
     NS.check_eff_cases(ctx, [NS.gen_eff_case(ctx.rng) for _ in range(2000)], compare_model=False)
     U.check_upd_cases(ctx, [U.gen_upd_case(ctx.rng) for _ in range(1500)], compare_model=False)
+    INI.check_ini_cases(ctx, [INI.gen_ini_case(ctx.rng) for _ in range(2000)], compare_model=False)
     check_fc_cases(ctx, [gen_fc_case(ctx.rng) for _ in range(5000)], compare_model=False)
     check_literal_cases(ctx, gen_literal_cases(ctx.rng, 5000), compare_model=False)
 
